@@ -77,13 +77,6 @@ void Executor::op_optimize(const Op& op, TaskCtx& t) {
   }
   o->free_row_nonbasic = false;
   if (s.hasBasis()) { double fi = s.getReal(P::r("infty")); for (int i = 0; i < s.numRows(); i++) if (s.lhs(i) <= -fi && s.rhs(i) >= fi && s.basisRowStatus(i) != sut::VS_BASIC) o->free_row_nonbasic = true; }
-  if (s.getInt(P::i("scaler")) == 5) {
-    // known finding: the least-squares scaler reads uninitialised memory / crashes on an LP with an empty row or column
-    bool empty = false;
-    for (int i = 0; i < o->lp.nrows() && !empty; i++) { bool nz = false; for (auto& v : o->lp.A[i]) if (v != 0) nz = true; if (!nz) empty = true; }
-    for (int j = 0; j < o->lp.ncols() && !empty; j++) { bool nz = false; for (int i = 0; i < o->lp.nrows(); i++) if (o->lp.A[i][j] != 0) nz = true; if (!nz) empty = true; }
-    if (empty && known_skip("C09", "leastsq_scaler_empty_vector", {{"scaler", "5"}})) { s.setInt(P::i("scaler"), 2); o->pm.i[P::i("scaler")] = 2; }
-  }
   bool guard_ref = false;
   if (rational && s.getInt(P::i("reflimit")) < 0) {
     // bound the cost of one exact solve; without reconstruction and factorization the refinement loop has no finite termination
